@@ -1,6 +1,7 @@
 //! C14 — exported data re-imports to the same dataset.
 //! E-in, exhaustive over a character alphabet: every short literal over the delimiter alphabet, in
-//! every term context, through every writer/reader pair.
+//! every term context, through every writer/reader pair; plus an IRI-shape family (every IRI of a small
+//! alphabet of syntactically valid shapes in every quad position under every prefix-declaration set).
 use crate::infra::{guarded, Ctx, PropDef, ShardOut};
 use kolibrie::sparql_database::SparqlDatabase;
 use serde_json::{json, Value};
@@ -10,9 +11,9 @@ use std::collections::{BTreeSet, HashMap};
 pub const DEF: PropDef = PropDef {
     id: "C14",
     level: "exploration",
-    rule: "literals = EVERY string of length <= 3 (thorough: <= 4) over the 16 characters {a \" \\ LF CR TAB é 😀 space < > . # : @ ^}, including the empty string, minus the strings the quantifier excludes because a lexical store cannot tell them from another term kind: starts with `<<` (quoted triple), starts with `_:` (blank node), or has the RFC 3986 shape `scheme:` = ALPHA *(ALPHA/DIGIT/+/-/.) followed by `:` (absolute IRI; this is the widest test any writer applies — generate_nquads' looks_like_absolute_iri — so nothing a writer would print as an IRI is kept); each literal as object in 10 contexts {IRI subject, blank-node subject, quoted-triple subject, nested quoted-triple subject, IRI subject in a named graph, blank-node subject in a blank-node-named graph, quoted-triple subject in a named graph, two objects + two predicates of one subject (Turtle `,` and `;`), literal as the object INSIDE a quoted-triple subject, database with declared prefixes `:` and `a:`}, each dataset also holding an IRI-object and a urn-object triple; the database is built through Dictionary::encode / QuotedTripleStore::encode / add_quad only (no parser) and observed once to validate the construction; round trips generate_nquads->parse_nquads_and_add, generate_ntriples->parse_ntriples_and_add, generate_turtle->parse_turtle into a NEW empty database; oracle: lexical quad set (decode_any over all_quads) of the re-imported database = that of the source (N-Quads: all graphs; N-Triples/Turtle: the default graph only). non-trivial = literal is empty or contains a character with a syntactic role (anything but a, é, 😀); distinct = distinct (literal, context, format).",
+    rule: "FAMILY literal: literals = EVERY string of length <= 3 (thorough: <= 4) over the 22 characters {a \" \\ LF CR TAB é 😀 space < > . # : @ ^ { | } ; , '} (the last six cross parse_turtle's annotation scan `{| |}` and its `;` `,` statement punctuation), including the empty string, plus an explicit list of longer/rarer literals (EXTRA: the control and Unicode-space characters NUL, U+0001, VT, FF, NEL, NBSP, LS alone and beside `a`; annotation look-alikes `{||}`, `a{|a a|}`, `{|a a|}`, `a {| a a |}`, `|}{|`, `{|a`, `a|}`; `'a'`, `'''`), minus the strings the quantifier excludes because a lexical store cannot tell them from another term kind: starts with `<<` (quoted triple), starts with `_:` (blank node), or has the RFC 3986 shape `scheme:` = ALPHA *(ALPHA/DIGIT/+/-/.) followed by `:` (absolute IRI; this is the widest test any writer applies — generate_nquads' looks_like_absolute_iri — so nothing a writer would print as an IRI is kept); each literal as object in 14 contexts {IRI subject, blank-node subject, quoted-triple subject, nested quoted-triple subject, IRI subject in a named graph, blank-node subject in a blank-node-named graph, quoted-triple subject in a named graph, two objects + two predicates of one subject (Turtle `,` and `;`), literal as the object INSIDE a quoted-triple subject, database with declared prefixes `:` and `a:`, literal beside a QUOTED-TRIPLE OBJECT under the same predicate (the reader meets `<< >>` after `,`), literal beside a BLANK-NODE OBJECT, quoted-triple subject with two predicates (`;` after a `<< >>` subject), NESTED quoted-triple object in a named graph and in the default graph}, each dataset also holding an IRI-object and a urn-object triple. FAMILY iri: every IRI of {http://e/a#f, http://e/a?x=1,2;3, http://e/a., http://e/é, mailto:a@b, a:s1, urn:x:y, http://e/a/s1} (all syntactically valid RFC 3986 IRIs: fragment, query with `,` `;` `=`, trailing dot, non-ASCII, non-http schemes, a scheme that EQUALS a declared prefix name) in every quad position {subject, predicate, object, graph name} x declared prefix sets {none; `:`->http://e/ and `a:`->http://e/a/; `urn:`->http://u/ and `mailto:`->http://m/}. Both families: the database is built through Dictionary::encode / QuotedTripleStore::encode / add_quad / set_prefixes only (no parser) and observed once to validate the construction; round trips generate_nquads->parse_nquads_and_add, generate_ntriples->parse_ntriples_and_add, generate_turtle->parse_turtle into a NEW empty database; oracle: lexical quad set (decode_any over all_quads) of the re-imported database = that of the source (N-Quads: all graphs; N-Triples/Turtle: the default graph only). non-trivial (literal family) = the literal is empty or contains a character with a syntactic role (anything but a, é, 😀) AND the quad carrying it is part of what the format exports (named-graph contexts under N-Triples/Turtle only check that nothing of the named graph is exported and are not counted); (iri family) every case; distinct = distinct (literal, context, format) / (iri, position, prefix set, format).",
     assumptions: &[
-        "alphabet and length bound as stated; IRIs used are http://e/..., urn:x:y (syntactically valid)",
+        "alphabet and length bound as stated; IRIs used in the literal family are http://e/..., urn:x:y; the iri family's IRIs are listed in the rule (all syntactically valid)",
         "source databases are built without any parser (dictionary + quoted-triple store + add_quad) and their observation is checked against the abstract dataset before the round trip (a mismatch is a machinery error)",
         "equality is on lexical quads: Kolibrie stores no term kinds, so an IRI printed as a literal and read back to the same lexical form counts as preserved",
     ],
@@ -22,7 +23,7 @@ pub const DEF: PropDef = PropDef {
     shards: 0,
 };
 
-pub const ALPHABET: [char; 16] = ['a', '"', '\\', '\n', '\r', '\t', 'é', '😀', ' ', '<', '>', '.', '#', ':', '@', '^'];
+pub const ALPHABET: [char; 22] = ['a', '"', '\\', '\n', '\r', '\t', 'é', '😀', ' ', '<', '>', '.', '#', ':', '@', '^', '{', '|', '}', ';', ',', '\''];
 
 /// all strings over ALPHABET of length 0..=maxlen in shortlex order
 pub fn all_strings(maxlen: usize) -> Vec<String> {
@@ -41,6 +42,21 @@ pub fn all_strings(maxlen: usize) -> Vec<String> {
         layer = next;
     }
     out
+}
+
+/// literals outside the alphabet/length bound that cross a specific reader branch (see DEF.rule)
+pub fn extra_literals() -> Vec<String> {
+    let mut v: Vec<String> = Vec::new();
+    for c in ['\u{0}', '\u{1}', '\u{b}', '\u{c}', '\u{85}', '\u{a0}', '\u{2028}'] {
+        v.push(format!("{}", c));
+        v.push(format!("a{}", c));
+        v.push(format!("{}a", c));
+        v.push(format!("a{}a", c));
+    }
+    for s in ["{||}", "a{|a a|}", "{|a a|}", "a {| a a |}", "|}{|", "{|a", "a|}", "'a'", "'''"] {
+        v.push(s.to_string());
+    }
+    v
 }
 
 /// The quantifier's exclusion: a literal whose lexical form "can be mistaken for an IRI, blank node or
@@ -99,9 +115,13 @@ pub enum Context {
     TwoObjectsTwoPredicates,
     LiteralInsideQuotedSubject,
     DatabaseHasPrefixes,
+    QuotedObjectBesideLiteral,
+    BlankObjectBesideLiteral,
+    QuotedSubjectTwoPredicates,
+    NestedQuotedObjectNamedAndDefault,
 }
 
-pub const CONTEXTS: [Context; 10] = [
+pub const CONTEXTS: [Context; 14] = [
     Context::IriSubject,
     Context::BlankSubject,
     Context::QuotedSubject,
@@ -112,6 +132,10 @@ pub const CONTEXTS: [Context; 10] = [
     Context::TwoObjectsTwoPredicates,
     Context::LiteralInsideQuotedSubject,
     Context::DatabaseHasPrefixes,
+    Context::QuotedObjectBesideLiteral,
+    Context::BlankObjectBesideLiteral,
+    Context::QuotedSubjectTwoPredicates,
+    Context::NestedQuotedObjectNamedAndDefault,
 ];
 
 impl Context {
@@ -120,6 +144,13 @@ impl Context {
     }
     fn parse(s: &str) -> Option<Context> {
         CONTEXTS.iter().copied().find(|c| c.name() == s)
+    }
+    fn prefixes(&self) -> PrefixSet {
+        if *self == Context::DatabaseHasPrefixes {
+            PrefixSet::ColonAndA
+        } else {
+            PrefixSet::None
+        }
     }
 }
 
@@ -145,24 +176,82 @@ impl Fmt {
     }
 }
 
+/// prefix declarations held by the SOURCE database (generate_turtle prints them, parse_turtle reads them back)
+#[derive(Clone, Copy, Debug, PartialEq, Eq, Hash)]
+pub enum PrefixSet {
+    None,
+    ColonAndA,
+    UrnAndMailto,
+}
+
+pub const PREFIX_SETS: [PrefixSet; 3] = [PrefixSet::None, PrefixSet::ColonAndA, PrefixSet::UrnAndMailto];
+
+impl PrefixSet {
+    fn name(&self) -> String {
+        format!("{:?}", self)
+    }
+    fn parse(s: &str) -> Option<PrefixSet> {
+        PREFIX_SETS.iter().copied().find(|c| c.name() == s)
+    }
+    fn pairs(&self) -> Vec<(&'static str, &'static str)> {
+        match self {
+            PrefixSet::None => vec![],
+            PrefixSet::ColonAndA => vec![("", "http://e/"), ("a", "http://e/a/")],
+            PrefixSet::UrnAndMailto => vec![("urn", "http://u/"), ("mailto", "http://m/")],
+        }
+    }
+}
+
+/// IRI shapes of the iri family (all syntactically valid)
+pub const IRIS: [&str; 8] = ["http://e/a#f", "http://e/a?x=1,2;3", "http://e/a.", "http://e/é", "mailto:a@b", "a:s1", "urn:x:y", "http://e/a/s1"];
+
+#[derive(Clone, Copy, Debug, PartialEq, Eq, Hash)]
+pub enum Pos {
+    S,
+    P,
+    O,
+    G,
+}
+
+pub const POSITIONS: [Pos; 4] = [Pos::S, Pos::P, Pos::O, Pos::G];
+
+impl Pos {
+    fn name(&self) -> &'static str {
+        match self {
+            Pos::S => "s",
+            Pos::P => "p",
+            Pos::O => "o",
+            Pos::G => "g",
+        }
+    }
+    fn parse(s: &str) -> Option<Pos> {
+        POSITIONS.iter().copied().find(|c| c.name() == s)
+    }
+}
+
 const S: &str = "http://e/s";
 const P: &str = "http://e/p";
 const P2: &str = "http://e/p2";
 const G: &str = "http://e/g1";
 
+fn base() -> Vec<AQuad> {
+    vec![
+        (T::lex("http://e/s0"), T::lex(P), T::lex("http://e/o"), None),
+        (T::lex("http://e/s0"), T::lex(P), T::lex("urn:x:y"), None),
+    ]
+}
+
 /// the abstract dataset for (literal, context)
 pub fn dataset(lit: &str, c: Context) -> Vec<AQuad> {
     let l = T::lex(lit);
     let abq = || T::q(T::lex("http://e/a"), T::lex("http://e/q"), T::lex("http://e/b"));
-    let mut d: Vec<AQuad> = vec![
-        (T::lex("http://e/s0"), T::lex(P), T::lex("http://e/o"), None),
-        (T::lex("http://e/s0"), T::lex(P), T::lex("urn:x:y"), None),
-    ];
+    let nested = || T::q(abq(), T::lex("http://e/q"), T::lex("http://e/c"));
+    let mut d = base();
     match c {
         Context::IriSubject | Context::DatabaseHasPrefixes => d.push((T::lex(S), T::lex(P), l, None)),
         Context::BlankSubject => d.push((T::lex("_:b1"), T::lex(P), l, None)),
         Context::QuotedSubject => d.push((abq(), T::lex(P), l, None)),
-        Context::NestedQuotedSubject => d.push((T::q(abq(), T::lex("http://e/q"), T::lex("http://e/c")), T::lex(P), l, None)),
+        Context::NestedQuotedSubject => d.push((nested(), T::lex(P), l, None)),
         Context::NamedGraph => d.push((T::lex(S), T::lex(P), l, Some(G.to_string()))),
         Context::BlankSubjectBlankGraph => d.push((T::lex("_:b1"), T::lex(P), l, Some("_:g".to_string()))),
         Context::QuotedSubjectNamedGraph => d.push((abq(), T::lex(P), l, Some(G.to_string()))),
@@ -172,7 +261,42 @@ pub fn dataset(lit: &str, c: Context) -> Vec<AQuad> {
             d.push((T::lex(S), T::lex(P2), l, None));
         }
         Context::LiteralInsideQuotedSubject => d.push((T::q(T::lex("http://e/a"), T::lex("http://e/q"), l), T::lex(P), T::lex("http://e/o"), None)),
+        Context::QuotedObjectBesideLiteral => {
+            d.push((T::lex(S), T::lex(P), l, None));
+            d.push((T::lex(S), T::lex(P), abq(), None));
+        }
+        Context::BlankObjectBesideLiteral => {
+            d.push((T::lex(S), T::lex(P), l, None));
+            d.push((T::lex(S), T::lex(P), T::lex("_:b2"), None));
+        }
+        Context::QuotedSubjectTwoPredicates => {
+            d.push((abq(), T::lex(P), l.clone(), None));
+            d.push((abq(), T::lex(P2), l, None));
+        }
+        Context::NestedQuotedObjectNamedAndDefault => {
+            d.push((T::lex(S), T::lex(P), l.clone(), Some(G.to_string())));
+            d.push((T::lex(S), T::lex(P), nested(), Some(G.to_string())));
+            d.push((T::lex(S), T::lex(P2), nested(), None));
+            d.push((T::lex(S), T::lex(P2), l, None));
+        }
     }
+    d
+}
+
+/// does the quad that carries the literal belong to what format `f` exports?
+fn literal_exported(c: Context, f: Fmt) -> bool {
+    f == Fmt::NQuads || !matches!(c, Context::NamedGraph | Context::BlankSubjectBlankGraph | Context::QuotedSubjectNamedGraph)
+}
+
+/// the abstract dataset of the iri family: the IRI `u` in quad position `pos`
+pub fn dataset_iri(u: &str, pos: Pos) -> Vec<AQuad> {
+    let mut d = base();
+    d.push(match pos {
+        Pos::S => (T::lex(u), T::lex(P), T::lex("a"), None),
+        Pos::P => (T::lex(S), T::lex(u), T::lex("a"), None),
+        Pos::O => (T::lex(S), T::lex(P), T::lex(u), None),
+        Pos::G => (T::lex(S), T::lex(P), T::lex("a"), Some(u.to_string())),
+    });
     d
 }
 
@@ -187,7 +311,7 @@ fn encode(db: &SparqlDatabase, t: &T) -> u32 {
 }
 
 /// build the source database without going through any parser
-pub fn build(d: &[AQuad], c: Context) -> SparqlDatabase {
+pub fn build(d: &[AQuad], prefixes: PrefixSet) -> SparqlDatabase {
     let mut db = SparqlDatabase::new();
     for (s, p, o, g) in d {
         let quad = Quad {
@@ -201,10 +325,12 @@ pub fn build(d: &[AQuad], c: Context) -> SparqlDatabase {
         };
         db.add_quad(quad);
     }
-    if c == Context::DatabaseHasPrefixes {
+    let pairs = prefixes.pairs();
+    if !pairs.is_empty() {
         let mut m = HashMap::new();
-        m.insert(String::new(), "http://e/".to_string());
-        m.insert("a".to_string(), "http://e/a/".to_string());
+        for (k, v) in pairs {
+            m.insert(k.to_string(), v.to_string());
+        }
         db.set_prefixes(m);
     }
     db
@@ -230,9 +356,9 @@ pub fn expected(d: &[AQuad], f: Fmt) -> BTreeSet<LexQuad> {
 }
 
 /// one round trip from scratch: Ok((text, re-imported quads)) or Err(panic message)
-pub fn round_trip(d: &[AQuad], c: Context, f: Fmt) -> Result<(String, BTreeSet<LexQuad>), String> {
+pub fn round_trip(d: &[AQuad], prefixes: PrefixSet, f: Fmt) -> Result<(String, BTreeSet<LexQuad>), String> {
     guarded(|| {
-        let src = build(d, c);
+        let src = build(d, prefixes);
         let text = match f {
             Fmt::NQuads => src.generate_nquads(),
             Fmt::NTriples => src.generate_ntriples(),
@@ -254,7 +380,9 @@ pub fn literal_tags(l: &str) -> Vec<String> {
     let edge_ws = l.trim() != l;
     let starts_quote = l.starts_with('"');
     let angle = l.starts_with('<') && l.ends_with('>') && l.len() >= 2;
-    let flags: [(bool, &str); 17] = [
+    let ann_open = l.contains("{|");
+    let ann_close = l.contains("|}");
+    let flags: [(bool, &str); 25] = [
         (l.is_empty(), "lit_empty"),
         (edge_ws, "lit_edge_ws"),
         (starts_quote, "lit_starts_quote"),
@@ -272,6 +400,35 @@ pub fn literal_tags(l: &str) -> Vec<String> {
         (l.contains(' '), "lit_has_space"),
         (l.contains('.'), "lit_has_dot"),
         (!l.is_ascii(), "lit_non_ascii"),
+        (l.contains('{') || l.contains('|') || l.contains('}'), "lit_has_brace_or_pipe"),
+        (ann_open, "lit_has_annotation_open"),
+        (ann_close, "lit_has_annotation_close"),
+        (ann_open && ann_close, "lit_has_annotation_open_and_close"),
+        (l.contains(';') || l.contains(','), "lit_has_semicolon_or_comma"),
+        (l.contains('\''), "lit_has_apostrophe"),
+        (l.chars().any(|c| c.is_control() && !matches!(c, '\n' | '\r' | '\t')), "lit_has_other_control"),
+        (l.chars().any(|c| c.is_whitespace() && !c.is_ascii()), "lit_has_unicode_space"),
+    ];
+    for (b, n) in flags {
+        if b {
+            t.push(n.to_string());
+        }
+    }
+    t
+}
+
+/// structural facts about an iri-family case
+fn iri_tags(u: &str, pos: Pos, ps: PrefixSet) -> Vec<String> {
+    let mut t = vec!["family=iri".to_string(), format!("iri_pos={}", pos.name()), format!("prefixes={}", ps.name())];
+    let scheme = u.split_once(':').map(|x| x.0).unwrap_or("");
+    let flags: [(bool, &str); 7] = [
+        (u.contains('#'), "iri_has_fragment"),
+        (u.contains('?') || u.contains(',') || u.contains(';'), "iri_has_query_punctuation"),
+        (u.ends_with('.'), "iri_ends_with_dot"),
+        (!u.is_ascii(), "iri_non_ascii"),
+        (scheme != "http" && scheme != "https", "iri_scheme_not_http"),
+        (ps.pairs().iter().any(|(k, _)| *k == scheme), "iri_scheme_is_declared_prefix"),
+        (ps != PrefixSet::None, "source_declares_prefixes"),
     ];
     for (b, n) in flags {
         if b {
@@ -293,26 +450,19 @@ fn diff(got: &BTreeSet<LexQuad>, exp: &BTreeSet<LexQuad>) -> String {
     format!("missing {:?}; unexpected {:?}", exp.difference(got).take(3).collect::<Vec<_>>(), got.difference(exp).take(3).collect::<Vec<_>>())
 }
 
-/// evaluate one (literal, context, format); returns true when the case passes
-fn evaluate(out: &mut ShardOut, l: &str, c: Context, f: Fmt, progress: Option<&crate::infra::quiet::Progress>) -> bool {
-    let d = dataset(l, c);
-    let case = case_json(l, c, f);
-    if let Some(p) = progress {
-        p.mark(&case.to_string());
-    }
-    let exp = expected(&d, f);
-    out.evaluations += 1;
-    if nontrivial(l) {
-        out.nontrivial(&(l, c, f));
-    }
-    let r = round_trip(&d, c, f);
+/// the part shared by both families: run the round trip, compare, re-execute, record. `tags` are the
+/// structural tags of the case (format added here); returns true when the case passes
+#[allow(clippy::too_many_arguments)]
+fn judge_round_trip(out: &mut ShardOut, d: &[AQuad], ps: PrefixSet, f: Fmt, case: Value, mut tags: Vec<String>, fail_key: &str, sample_ok: bool) -> bool {
+    let exp = expected(d, f);
+    let r = round_trip(d, ps, f);
     let (symptom, detail) = match &r {
         Err(msg) => ("panic", format!("panic during export/import: {}", msg)),
         Ok((text, got)) => {
             out.outcome(&(f, text));
             if got == &exp {
                 out.count(&format!("pass.{}", f.name()), 1);
-                if out.samples.len() < 4 && l.chars().count() == 3 && l.contains('"') && l.contains('\n') {
+                if sample_ok && out.samples.len() < 4 {
                     out.sample(json!({"case": case, "exported_text": text, "reimported_quads": got.len()}));
                 }
                 return true;
@@ -324,39 +474,122 @@ fn evaluate(out: &mut ShardOut, l: &str, c: Context, f: Fmt, progress: Option<&c
     // (the exported TEXT may list the quads in another order — all_quads iterates hash maps — so only the
     // re-imported quad set is compared; a differing quad set on identical input can only come from the
     // subject, whose export order then changes the result: recorded as a failure with its own tag)
-    let r2 = round_trip(&d, c, f);
+    let r2 = round_trip(d, ps, f);
     let same = match (&r, &r2) {
         (Ok(a), Ok(b)) => a.1 == b.1,
         (Err(_), Err(_)) => true,
         _ => false,
     };
-    let mut tags = literal_tags(l);
     if !same {
         tags.push("result_depends_on_export_order".into());
         out.count("result_depends_on_export_order", 1);
     }
     tags.push(format!("format={}", f.name()));
-    tags.push(format!("ctx={}", c.name()));
     out.count(&format!("failing.{}", f.name()), 1);
-    out.count(&format!("failing.{}.{}", f.name(), c.name()), 1);
+    out.count(&format!("failing.{}.{}", f.name(), fail_key), 1);
     if let Ok(path) = std::env::var("VCHECK_C14_DUMP") {
         // triage aid: one JSON line per failing case
         use std::io::Write;
         if let Ok(mut fh) = std::fs::OpenOptions::new().create(true).append(true).open(format!("{}.{}", path, std::process::id())) {
-            let _ = writeln!(fh, "{}", json!({"case": case, "tags": tags, "detail": detail}));
+            let _ = writeln!(fh, "{}", json!({"case": case, "symptom": symptom, "tags": tags, "detail": detail}));
         }
     }
     out.fail(case, symptom, detail, tags);
     false
 }
 
+/// evaluate one (literal, context, format); returns true when the case passes
+fn evaluate(out: &mut ShardOut, l: &str, c: Context, f: Fmt, progress: Option<&crate::infra::quiet::Progress>) -> bool {
+    let d = dataset(l, c);
+    let case = case_json(l, c, f);
+    if let Some(p) = progress {
+        p.mark(&case.to_string());
+    }
+    out.evaluations += 1;
+    if nontrivial(l) && literal_exported(c, f) {
+        out.nontrivial(&(l, c, f));
+    }
+    if !literal_exported(c, f) {
+        out.count("literal_quad_in_named_graph_not_exported_by_format", 1);
+    }
+    // vacuity counters of the reader branches the alphabet is meant to cross
+    if f == Fmt::Turtle && literal_exported(c, f) {
+        if l.contains("{|") {
+            out.count("turtle_literal_with_annotation_open", 1);
+        }
+        if l.contains(';') || l.contains(',') {
+            out.count("turtle_literal_with_statement_punctuation", 1);
+        }
+    }
+    let mut tags = literal_tags(l);
+    tags.push(format!("ctx={}", c.name()));
+    let sample_ok = l.chars().count() == 3 && l.contains('"') && l.contains('\n');
+    judge_round_trip(out, &d, c.prefixes(), f, case, tags, &c.name(), sample_ok)
+}
+
+fn iri_case_json(u: &str, pos: Pos, ps: PrefixSet, f: Fmt) -> Value {
+    json!({"family": "iri", "iri": u, "pos": pos.name(), "prefixes": ps.name(), "format": f.name()})
+}
+
+/// evaluate one iri-family case
+fn evaluate_iri(out: &mut ShardOut, u: &str, pos: Pos, ps: PrefixSet, f: Fmt, progress: Option<&crate::infra::quiet::Progress>) -> bool {
+    let d = dataset_iri(u, pos);
+    let case = iri_case_json(u, pos, ps, f);
+    if let Some(p) = progress {
+        p.mark(&case.to_string());
+    }
+    out.evaluations += 1;
+    out.nontrivial(&("iri", u, pos, ps, f));
+    out.count("iri_family_cases", 1);
+    let tags = iri_tags(u, pos, ps);
+    if tags.iter().any(|t| t == "iri_scheme_is_declared_prefix") {
+        out.count("iri_family_scheme_equals_declared_prefix", 1);
+    }
+    judge_round_trip(out, &d, ps, f, case, tags, &format!("iri_{}", pos.name()), pos == Pos::S && ps != PrefixSet::None)
+}
+
+/// validate the construction of a source database; false = machinery error recorded
+fn construction_ok(out: &mut ShardOut, d: &[AQuad], ps: PrefixSet, what: &str) -> bool {
+    match guarded(|| observe(&build(d, ps))) {
+        Ok(o) if o == expected(d, Fmt::NQuads) => true,
+        other => {
+            out.machinery_errors.push(format!("source database for {} does not decode to the abstract dataset: {:?}", what, other));
+            false
+        }
+    }
+}
+
 fn run(ctx: &Ctx) -> ShardOut {
     let mut out = ShardOut::default();
     let maxlen = if ctx.thorough() { 4 } else { 3 };
-    let all = all_strings(maxlen);
+    let mut all = all_strings(maxlen);
+    let in_bound = all.len();
+    for e in extra_literals() {
+        if !all.contains(&e) {
+            all.push(e);
+        }
+    }
     let mut idx = 0u64;
     let mut done = 0u64;
-    for l in &all {
+    // iri family first (small): one case per (iri, position, prefix set, format)
+    for u in IRIS {
+        for pos in POSITIONS {
+            for ps in PREFIX_SETS {
+                idx += 1;
+                if !ctx.mine(idx) {
+                    continue;
+                }
+                let d = dataset_iri(u, pos);
+                if !construction_ok(&mut out, &d, ps, &format!("iri {:?} at {:?} prefixes {:?}", u, pos, ps)) {
+                    continue;
+                }
+                for f in FMTS {
+                    evaluate_iri(&mut out, u, pos, ps, f, ctx.progress.as_ref());
+                }
+            }
+        }
+    }
+    for (k, l) in all.iter().enumerate() {
         if let Some(why) = mistakable(l) {
             if ctx.shard == 0 {
                 out.count(&format!("excluded_mistakable_for_{}", why), 1);
@@ -365,6 +598,9 @@ fn run(ctx: &Ctx) -> ShardOut {
         }
         if ctx.shard == 0 {
             out.count("literals_admitted", 1);
+            if k >= in_bound {
+                out.count("literals_admitted_extra_list", 1);
+            }
         }
         idx += 1;
         if !ctx.mine(idx) {
@@ -377,12 +613,8 @@ fn run(ctx: &Ctx) -> ShardOut {
         // validate the construction of the source database once per (literal, context)
         for c in CONTEXTS {
             let d = dataset(l, c);
-            match guarded(|| observe(&build(&d, c))) {
-                Ok(o) if o == expected(&d, Fmt::NQuads) => {}
-                other => {
-                    out.machinery_errors.push(format!("source database for literal {:?} ctx {:?} does not decode to the abstract dataset: {:?}", l, c, other));
-                    continue;
-                }
+            if !construction_ok(&mut out, &d, c.prefixes(), &format!("literal {:?} ctx {:?}", l, c)) {
+                continue;
             }
             for f in FMTS {
                 evaluate(&mut out, l, c, f, ctx.progress.as_ref());
@@ -395,6 +627,16 @@ fn run(ctx: &Ctx) -> ShardOut {
 
 fn replay(_ctx: &Ctx, case: &Value) -> ShardOut {
     let mut out = ShardOut::default();
+    if case.get("family").and_then(|v| v.as_str()) == Some("iri") {
+        let parsed = (|| Some((case["iri"].as_str()?.to_string(), Pos::parse(case["pos"].as_str()?)?, PrefixSet::parse(case["prefixes"].as_str()?)?, Fmt::parse(case["format"].as_str()?)?)))();
+        match parsed {
+            Some((u, pos, ps, f)) => {
+                evaluate_iri(&mut out, &u, pos, ps, f, None);
+            }
+            None => out.machinery_errors.push(format!("unreadable C14 iri case {}", case)),
+        }
+        return out;
+    }
     let parsed = (|| Some((case["literal"].as_str()?.to_string(), Context::parse(case["ctx"].as_str()?)?, Fmt::parse(case["format"].as_str()?)?)))();
     match parsed {
         Some((l, c, f)) => {
